@@ -5,7 +5,8 @@ From Verif Require Import Value PyEq BsonOrder Path Filter Update Coll.
 Import ListNotations.
 Open Scope Z_scope.
 
-Definition obs := (res value * list (value * value))%type.
+(* outcome, store contents, index_information() after the operation *)
+Definition obs := (res value * list (value * value) * value)%type.
 
 Record hist_case := HistCase {
   h_pre5 : bool;
@@ -52,10 +53,13 @@ Definition is_unmod (r : res value) : bool :=
 Fixpoint compare_run (pre5 : bool) (c : coll) (ops : list op) (os : list obs) (k : Z)
   : option Z * option Z :=
   match ops, os with
-  | o :: ops', (ir, istore) :: os' =>
+  | o :: ops', (ir, istore, iidx) :: os' =>
       let '(c', mr) := step pre5 c o in
       if is_unmod mr then (None, Some k)
       else if outcome_eqb mr ir && store_eqb (docs c') istore
+              && match index_information c' with
+                 | (_, Ok v) => value_eqb v iidx
+                 | _ => false end
            then compare_run pre5 c' ops' os' (k + 1)
            else (Some k, None)
   | [], [] => (None, None)
@@ -68,6 +72,26 @@ Definition hist_mismatch (h : hist_case) : bool :=
 Definition hist_unmodelled (h : hist_case) : bool :=
   match snd (compare_run (h_pre5 h) empty_coll (h_ops h) (h_obs h) 0) with
   | Some _ => true | None => false end.
+
+(* what the MODEL does on a history, in the shape of an observed trace; the run stops being
+   meaningful at the first unmodelled step, so the trace is cut there *)
+Fixpoint model_obs (pre5 : bool) (c : coll) (ops : list op) : list obs :=
+  match ops with
+  | [] => []
+  | o :: ops' =>
+      let '(c', r) := step pre5 c o in
+      (r, docs c', match index_information c' with (_, Ok v) => v | _ => VNull end)
+      :: model_obs pre5 c' ops'
+  end.
+
+(* no step of the history leaves the model *)
+Fixpoint modelled (pre5 : bool) (c : coll) (ops : list op) : bool :=
+  match ops with
+  | [] => true
+  | o :: ops' =>
+      let '(c', r) := step pre5 c o in
+      negb (is_unmod r) && modelled pre5 c' ops'
+  end.
 
 (* generic flags: bit 0 mismatch, bit 3 unmodelled *)
 Definition hist_check (h : hist_case) : Z :=
